@@ -522,3 +522,16 @@ pub fn long_lists(maxk: usize) -> Vec<Vec<Clause>> {
     }
     lists
 }
+
+/// lists of exactly k unit clauses (k in `ks`) over 3 variables in which the clause at position
+/// i is the only one on x1 and the last clause the only one on (negated) x2, all others x0:
+/// losing any block of clauses that contains position i or the last one changes the models
+pub fn long_unit_lists(ks: &[usize]) -> Vec<Vec<Clause>> {
+    let mut out = Vec::new();
+    for &k in ks {
+        for i in 0..k.saturating_sub(1) {
+            out.push((0..k).map(|p| if p == i { vec![(1usize, true)] } else if p == k - 1 { vec![(2usize, false)] } else { vec![(0usize, true)] }).collect());
+        }
+    }
+    out
+}
